@@ -513,6 +513,9 @@ func c05HSpec(tier string) *HSpec {
 		}
 		alpha = append(alpha, "remove "+n)
 	}
+	// a service with three prefixes on two hosts, a second one beside it on one of the hosts, a third one claiming one
+	// of its pairs on the other host
+	alpha = append(alpha, "deploy s1 h=a.example.com,b.example.com p=/,/api,/admin", "deploy s2 h=a.example.com p=/blog", "deploy s3 h=b.example.com p=/", "deploy s3 h=b.example.com p=/admin")
 	// commands that install a service again without claiming anything new, and a restart (the table is rebuilt)
 	alpha = append(alpha, "rdeploy s1 n=1", "rdeploy s2 n=1", "restart")
 	return &HSpec{
@@ -530,7 +533,7 @@ func c05HSpec(tier string) *HSpec {
 			}
 			return alpha
 		},
-		Obs:     ObsSpec{Hosts: []string{"a.example.com", "b.example.com:8080", "x.example.com", "other.org", "App.Example.com"}, Paths: []string{"/", "/api", "/api/x", "/apiary", "/app/y"}, Cookies: []string{""}, TLS: []bool{false}},
+		Obs:     ObsSpec{Hosts: []string{"a.example.com", "b.example.com:8080", "x.example.com", "other.org", "App.Example.com"}, Paths: []string{"/", "/api", "/api/x", "/apiary", "/app/y", "/admin/z", "/blog"}, Cookies: []string{""}, TLS: []bool{false}},
 		Clauses: map[string]bool{"routing": true, "target-set": true, "list": true, "gate": true, "tls-policy": true},
 	}
 }
